@@ -78,6 +78,7 @@ def step (st : St) (op res : String) : St × List String :=
         ({ s := some s, wf := wf, held := [] }, "br:psetup.ok" :: (if r == "ok" then [] else [s!"DIVERGE {if wf then "dom" else "drift"} model=ok"]))
       | .error _ => ({}, "br:psetup.err" :: (if r == "err" then [] else ["DIVERGE dom model=err", "FAIL C19 prefix: setup accepted arguments it cannot honour (pool is not an IPv6 network of a usable size)"]))
     | _ => ({}, ["DIVERGE drift unparsed-result"])
+  | ["page", _] => (st, ["br:prefix.time-passes"])     -- time is read off the timestamps of the lines that follow
   | "pmsg" :: client :: _depth :: k :: rest =>
     match st.s, k.toNat? with
     | some s, some k =>
